@@ -209,7 +209,7 @@ def func_check(ctx, what, before_net, after_net, spliced, rename=None):
 def check(case, ctx):
     cg = ctx.cg
     c = G.build(cg, case["parent"], case["via"])
-    kids = [G.build(cg, cd, "graph") for cd in case["children"]]
+    kids = [G.build(cg, cd, "sparse" if (len(cd["nodes"]) + j) % 3 == 0 else "graph") for j, cd in enumerate(case["children"])]
     knets = [Net.of(k) for k in kids]
     kstates = [K.State.of_net(n) for n in knets]
     bbtypes = {}
